@@ -16,6 +16,9 @@ import (
 	"fmt"
 	"math/rand"
 	"path"
+	"reflect"
+	"sort"
+	"strings"
 
 	"github.com/compose-spec/compose-go/v2/loader"
 	"github.com/compose-spec/compose-go/v2/transform"
@@ -50,7 +53,58 @@ func c11Outcome(res map[string]any, err error) any {
 	if err != nil {
 		return map[string]any{"err": "err"}
 	}
-	return map[string]any{"ok": core.EncodeVal(res)}
+	out := map[string]any{"ok": core.EncodeVal(res)}
+	if at := c11Shared(res); at != "" {
+		out["shared"] = at
+	}
+	return out
+}
+
+// c11Shared reports the path of a mapping / sequence that is reachable twice in a result tree.  The inputs are
+// freshly decoded trees, so any sharing was introduced by the function under test: a default value that is one
+// map instance stored under several keys is overwritten for all of them by the next in-place merge.
+func c11Shared(v any) string {
+	seen := map[uintptr]string{}
+	var walk func(v any, at string) string
+	walk = func(v any, at string) string {
+		switch x := v.(type) {
+		case map[string]any:
+			if x == nil {
+				return ""
+			}
+			p := reflect.ValueOf(x).Pointer()
+			if prev, dup := seen[p]; dup {
+				return prev + " = " + at
+			}
+			seen[p] = at
+			ks := make([]string, 0, len(x))
+			for k := range x {
+				ks = append(ks, k)
+			}
+			sort.Strings(ks)
+			for _, k := range ks {
+				if r := walk(x[k], at+"."+k); r != "" {
+					return r
+				}
+			}
+		case []any:
+			if len(x) == 0 {
+				return ""
+			}
+			p := reflect.ValueOf(x).Pointer()
+			if prev, dup := seen[p]; dup {
+				return prev + " = " + at
+			}
+			seen[p] = at
+			for i, e := range x {
+				if r := walk(e, fmt.Sprintf("%s[%d]", at, i)); r != "" {
+					return r
+				}
+			}
+		}
+		return ""
+	}
+	return walk(v, "")
 }
 
 func c11Judge(what string) func(args, real, drv json.RawMessage) *core.Verdict {
@@ -59,7 +113,19 @@ func c11Judge(what string) func(args, real, drv json.RawMessage) *core.Verdict {
 		case "fatal", "hang":
 			return core.CrashVerdict(real)
 		}
-		// a panic is an outcome the model must predict (site included); it is the business of C01 to
+		var r struct {
+			Ok     json.RawMessage `json:"ok"`
+			Shared string          `json:"shared"`
+		}
+		if json.Unmarshal(real, &r) == nil && r.Shared != "" {
+			// the result is not a tree any more: a value written by the function is one instance under two positions
+			b, _ := json.Marshal(map[string]any{"ok": r.Ok})
+			real = b
+			if core.CanonEqual(real, drv) {
+				return core.Fail("shared-default-instance:"+strings.SplitN(what, " ", 2)[0], "the result shares one mapping/sequence instance between "+r.Shared+": a later in-place change of one overwrites the other")
+			}
+		}
+		// a panic is an outcome the model must predict (site included; Normalize has none left); it is the business of C01 to
 		// call it a defect, here it only has to be the same on both sides
 		if !core.CanonEqual(real, drv) {
 			return core.Disagree(what)
@@ -302,7 +368,7 @@ func c11NormalizeExhaustive(ctx *core.Ctx) {
 			}
 		}
 	}
-	// the known crash of DESIGN §10 #2: an empty `pid:` passes the schema and reaches n.(string)
+	// DESIGN §10 #2 (repaired in /repo): an empty `pid:` passes the schema; it must normalise without a panic
 	c11Add(ctx, "c11.normalize", "nz-null-pid", m{"name": "proj", "services": m{"a": m{"image": "i", "pid": nil}}}, nil)
 }
 
